@@ -394,6 +394,8 @@ GENUINE = nm.build(QID, RFLAGS, qd=[Q], an=[A1, A2])
 SYMBOLS = {
     "forged-addr": (GENUINE, "addr"),
     "forged-port": (GENUINE, "port"),
+    # same address and port, other IPv6 scope id (another link); for IPv4 it equals forged-addr
+    "forged-scope": (GENUINE, "scope"),
     "wrong-id": (nm.build(QID + 1, RFLAGS, qd=[Q], an=[A1, A2]), "good"),
     "wrong-qname": (nm.build(QID, RFLAGS, qd=[OTHERQ], an=[A1, A2]), "good"),
     "wrong-qtype": (nm.build(QID, RFLAGS, qd=[(QNAME, nm.T_AAAA, nm.C_IN)], an=[A1]), "good"),
@@ -425,17 +427,21 @@ INFOS = {s: nm.Info(w) for s, (w, _) in SYMBOLS.items()}
 # address configurations: family, where, port, destination tuple, sources by kind
 CONFIGS = {
     "v4": (socket.AF_INET, "10.0.0.1", 53, ("10.0.0.1", 53),
-           {"good": ("10.0.0.1", 53), "addr": ("10.0.0.2", 53), "port": ("10.0.0.1", 5353)}),
+           {"good": ("10.0.0.1", 53), "addr": ("10.0.0.2", 53), "port": ("10.0.0.1", 5353), "scope": ("10.0.0.3", 53)}),
     # the reply's source is spelled differently from the destination (same binary address)
     "v6": (socket.AF_INET6, "2001:db8::1", 53, ("2001:db8::1", 53, 0, 0),
            {"good": ("2001:db8:0:0:0:0:0:1", 53, 0, 0), "addr": ("2001:db8::2", 53, 0, 0),
-            "port": ("2001:db8::1", 5353, 0, 0)}),
+            "port": ("2001:db8::1", 5353, 0, 0), "scope": ("2001:db8::1", 53, 0, 7)}),
+    # link-local resolver: the scope id (interface) is part of the address
+    "ll6": (socket.AF_INET6, "fe80::1%2", 53, ("fe80::1", 53, 0, 2),
+            {"good": ("fe80::1", 53, 0, 2), "addr": ("fe80::2", 53, 0, 2),
+             "port": ("fe80::1", 5353, 0, 2), "scope": ("fe80::1", 53, 0, 3)}),
     # multicast destinations are answered from unicast addresses; the port still counts
     "mc4": (socket.AF_INET, "224.0.0.251", 5353, ("224.0.0.251", 5353),
-            {"good": ("10.0.0.9", 5353), "addr": ("10.0.0.2", 5353), "port": ("10.0.0.9", 53)}),
+            {"good": ("10.0.0.9", 5353), "addr": ("10.0.0.2", 5353), "port": ("10.0.0.9", 53), "scope": ("10.0.0.9", 54)}),
     "mc6": (socket.AF_INET6, "ff02::fb", 5353, ("ff02::fb", 5353, 0, 0),
             {"good": ("fe80::9", 5353, 0, 0), "addr": ("fe80::2", 5353, 0, 0),
-             "port": ("fe80::9", 53, 0, 0)}),
+             "port": ("fe80::9", 53, 0, 0), "scope": ("fe80::9", 5353, 0, 4)}),
 }
 
 _QUERIES = {}
@@ -1061,7 +1067,7 @@ def selftest():
     assert qi.error is None and qi.id == QID and not qi.qr and qi.opcode == 0
     assert qi.question == [(tuple(l.lower() for l in QNAME), nm.T_A, nm.C_IN)]
     gen = {s for s in SYMBOLS if nm.genuine(qi, INFOS[s])}
-    assert gen == {"forged-addr", "forged-port", "tc-genuine", "tc-cut", "trailing", "servfail-noq",
+    assert gen == {"forged-addr", "forged-port", "forged-scope", "tc-genuine", "tc-cut", "trailing", "servfail-noq",
                    "corrupt-rdata", "cut-rdata", "genuine"}, gen
     bad = {s for s in SYMBOLS if INFOS[s].error is not None}
     assert bad == {"garbage", "short-header", "corrupt-rdata", "cut-rdata", "tc-cut", "tc-cut-wrong-id",
@@ -1129,7 +1135,7 @@ def run(ctx):
                 schemes = ["fast", "dl@%d" % depth]
             for scheme in schemes:
                 tasks.append((udp_task, (entry, "v4", opts, scheme, depth, 0)))
-            for cfg in ("v6", "mc4", "mc6"):
+            for cfg in ("v6", "ll6", "mc4", "mc6"):
                 for scheme in ("fast", "forever"):
                     tasks.append((udp_task, (entry, cfg, opts, scheme, side_depth, 0)))
             if entry_fn(entry).endswith(".udp"):
